@@ -344,10 +344,12 @@ func (f *fileDecorator) link() {
 				if frag.Empty {
 					spaceType = dst.EmptyLine
 				}
-				if foundBefore {
+				// Several newlines can be adjacent to the same node (e.g. two empty lines in a
+				// row), so never downgrade an empty line that has already been found.
+				if foundBefore && spaceType > f.before[nodeBefore] {
 					f.before[nodeBefore] = spaceType
 				}
-				if foundAfter {
+				if foundAfter && spaceType > f.after[nodeAfter] {
 					f.after[nodeAfter] = spaceType
 				}
 				continue
